@@ -132,6 +132,9 @@ pub struct StepObs {
     pub values: Vec<u64>,
     pub has_left: bool,
     pub has_right: bool,
+    /// mutable views: the read-only re-borrow `(&view_mut).view()` shows the same position
+    /// (prefix, value, sides, entries); always true for read-only views
+    pub reborrow_same: bool,
 }
 
 #[derive(Clone, Debug, PartialEq)]
